@@ -1414,8 +1414,148 @@ OBLIGATION_CATS = {
     "far_field_other_components": ["bvp_lm"], "far_field_ivp": ["ivp"], "far_field_ivp_other_components": ["ivp"],
     "lm_enumeration": ["bvp_lm", "bvp_rot", "bvp"], "lm_enumeration_ivp": ["ivp"], "laplacian_expansion": ["lap"], "laplacian_degrees": ["lap"],
     "linear_in_density": ["lin", "bvp"], "linear_in_density_ivp": ["lin", "ivp"], "robust_recombination": ["robust"],
-    "robust_recombination_sound": ["robust"], "laplacian_mol_sum": [], "robust_exact_on_core_model": ["robust"], "robust_core_pair_poisson": ["robust"],
+    "robust_recombination_sound": ["robust", "reuse"], "laplacian_mol_sum": [], "robust_exact_on_core_model": ["robust"], "robust_core_pair_poisson": ["robust"],
 }
+
+
+def tiny_setup(alpha, center, atnum=1, n_rad=40, degree=3, rmin=1e-5):
+    tf = BeckeRTransform(rmin, R=1.5)
+    rad = tf.transform_1d_grid(GaussLegendre(n_rad))
+    ag = AtomGrid(rad, degrees=[degree], center=np.asarray(center, float))
+    return ag, tf
+
+
+def sweep_large_requests(ctx: Ctx, out, deep: bool, alpha=None, only=None):
+    """Every returned callable is a pointwise function of the evaluation points: a request of N points must equal the same callable on
+    small slices of the request and the analytic value -- at the head, in the middle and at the TAIL -- for N = 0, 1, around powers of
+    two and just above 2**20 (block-wise evaluation paths)."""
+    rng = ctx.rng
+    alpha = round(rng.uniform(0.6, 1.4), 3) if alpha is None else alpha
+    center = np.array([0.25, -0.5, 0.125])
+    ag, tf = tiny_setup(alpha, center)
+    dens = s_density(ag.points, center, [1.0], [alpha])
+    big = 2 ** 20 + rng.choice([4321, 1, 77777])
+    counts_small = [0, 1, 2, 2 ** 10 - 1, 2 ** 10 + 1, 2 ** 16 + 3]
+    nprng = np.random.default_rng([ctx.seed, 4000])
+    makers = [("solve_poisson_bvp", lambda: GP.solve_poisson_bvp(ag, dens.copy(), InverseRTransform(tf), remove_large_pts=10.0, ode_params={}),
+               lambda p: s_potential(p, center, [1.0], [alpha]), TOL)]
+    if deep:
+        tf_i = BeckeRTransform(0.01, R=1.5)
+        ag_i = AtomGrid(tf_i.transform_1d_grid(GaussLegendre(100)), degrees=[3], center=center)
+        dens_i = s_density(ag_i.points, center, [1.0], [alpha])
+        makers += [
+            ("solve_poisson_ivp", lambda: GP.solve_poisson_ivp(ag_i, dens_i.copy(), InverseRTransform(tf_i), ode_params={},
+                                                               r_interval=(float(ag_i.rgrid.points[-1]), float(ag_i.rgrid.points[0]))),
+             lambda p: s_potential(p, center, [1.0], [alpha]), TOL),
+            ("solve_poisson_robust", lambda: GR.solve_poisson_robust(ag, dens.copy(), InverseRTransform(tf), np.array([1]), center.reshape(1, 3),
+                                                                     remove_large_pts=10.0, ode_params={}),
+             lambda p: s_potential(p, center, [1.0], [alpha]), 2 * TOL),
+            ("interpolate_laplacian", lambda: GP.interpolate_laplacian(ag, s_potential(ag.points, center, [1.0], [alpha])), None, None)]
+    for name, make, exact, tol in makers:
+        if only is not None and name != only[0]:
+            continue
+        np.random.seed(0)
+        V = make()
+        if only is not None:
+            counts_small, big = [], only[1]
+        small = counts_small if (deep or name == "solve_poisson_bvp") else []
+        if name == "solve_poisson_ivp":      # scipy's OdeSolution (the dense output behind the IVP potential) rejects an empty array
+            small = [n for n in small if n > 0]
+        for n in small + [big]:
+            # points in a shell 0.3 <= |p - centre| <= 3 (away from the centre: the BVP closure returns 0 there by convention)
+            d = nprng.normal(size=(n, 3))
+            d /= np.maximum(np.linalg.norm(d, axis=1, keepdims=True), 1e-300)
+            pts = center + d * nprng.uniform(0.3, 3.0, size=(n, 1))
+            snap = pts.copy()
+            key = f"large_request:{name}:n={n}:alpha={alpha}:seed={ctx.seed}"
+            try:
+                got = np.asarray(V(pts))
+            except Exception as e:  # noqa: BLE001
+                out.append(dict(cat="large", err=1e9, tol=1.0, key=key, text=f"{name}(...) raised {type(e).__name__}: {e} on a request of {n} points",
+                                replay=dict(function=name, n=n, alpha=alpha, exception=repr(e))))
+                continue
+            ctx.case(("large", name, n))
+            ctx.count("sweep_large_request")
+            bad = None
+            if got.shape != (n,):
+                bad = (0, float(got.size), float(n), f"result has shape {got.shape}, expected ({n},)")
+            elif not np.array_equal(pts, snap):
+                bad = (0, 1.0, 0.0, "the caller's points array was modified")
+            elif n:
+                blocks = [slice(0, min(n, 64)), slice(n // 2, min(n, n // 2 + 64)), slice(max(0, n - 64), n)]
+                for where, sl in zip(("head", "middle", "tail"), blocks):
+                    ref = np.asarray(V(snap[sl].copy()))
+                    dv = np.abs(got[sl] - ref)
+                    j = int(np.argmax(dv))
+                    if not dv[j] <= 1e-10 * (1 + abs(ref[j])):
+                        bad = (sl.start + j, float(got[sl][j]), float(ref[j]), f"{where} of the request differs from the same callable on that slice alone")
+                        break
+                    if exact is not None:
+                        ex = exact(snap[sl])
+                        de = np.abs(got[sl] - ex)
+                        j = int(np.argmax(de))
+                        if not de[j] <= tol:
+                            bad = (sl.start + j, float(got[sl][j]), float(ex[j]), f"{where} of the request differs from the analytic potential")
+                            break
+            if bad is not None:
+                idx, g, e, why = bad
+                out.append(dict(cat="large", err=max(abs(g - e), 1.0), tol=1e-6, key=key,
+                                text=f"{name}(unit Gaussian alpha={alpha} on a degree-3 atomic grid)(points[0:{n}]): {why}: entry {idx} is {g}, expected {e}",
+                                replay=dict(function=name, n=n, alpha=alpha, index=idx, point=snap[idx].tolist() if n else None, got=g, expected=e)))
+            else:
+                out.append(dict(cat="large", err=0.0, tol=1.0, key=key, text="", replay={}))
+
+
+def sweep_reuse(ctx: Ctx, out, deep: bool, alpha=None, only=None):
+    """Histories that pass the SAME array object to several solves: no call may modify the caller's array (byte-wise snapshot) and every result
+    is judged against the analytic potential on its own."""
+    rng = ctx.rng
+    alpha = round(rng.uniform(0.6, 1.4), 3) if alpha is None else alpha
+    center = np.zeros(3)
+    ag, tf = tiny_setup(alpha, center, n_rad=50, degree=5)
+    itf = InverseRTransform(tf)
+    nprng = np.random.default_rng([ctx.seed, 5000])
+    d = nprng.normal(size=(40, 3))
+    pts = center + d / np.linalg.norm(d, axis=1, keepdims=True) * nprng.uniform(0.3, 3.0, size=(40, 1))
+    exact = s_potential(pts, center, [1.0], [alpha])
+    atn, atc = np.array([1]), center.reshape(1, 3)
+    steps = {"robust": lambda a: GR.solve_poisson_robust(ag, a, itf, atn, atc, remove_large_pts=10.0, ode_params={}),
+             "robust_split2": lambda a: GR.solve_poisson_robust(ag, a, itf, atn, atc, split2=True, remove_large_pts=10.0, ode_params={}),
+             "bvp": lambda a: GP.solve_poisson_bvp(ag, a, itf, remove_large_pts=10.0, ode_params={}),
+             "laplacian": lambda a: GP.interpolate_laplacian(ag, a)}
+    histories = [["robust", "bvp", "robust_split2"], ["bvp", "bvp"]]
+    if deep:
+        histories += [["robust_split2", "robust", "bvp"], ["robust", "robust"], ["laplacian", "bvp", "robust"]]
+    if only is not None:
+        histories = [list(only)]
+    for hi, hist in enumerate(histories):
+        dens = np.ascontiguousarray(s_density(ag.points, center, [1.0], [alpha]), dtype=np.float64)     # ONE array object for the whole history
+        snap = dens.tobytes()
+        key = f"reuse:{'>'.join(hist)}:alpha={alpha}:seed={ctx.seed}"
+        bad = None
+        for si, step in enumerate(hist):
+            np.random.seed(0)
+            V = steps[step](dens)
+            ctx.count("sweep_reuse_step")
+            if step != "laplacian":
+                got = V(pts.copy())
+                err = np.abs(got - exact)
+                j = int(np.argmax(err))
+                if not err[j] <= 2 * TOL:
+                    bad = (float(err[j]), f"step {si + 1} ({step}) of the history {hist} on one density array returns {float(got[j])}, the analytic potential is "
+                                          f"{float(exact[j])} at {pts[j].tolist()}", dict(point=pts[j].tolist(), got=float(got[j]), expected=float(exact[j])))
+                    break
+            if dens.tobytes() != snap:
+                ch = float(np.max(np.abs(dens - np.frombuffer(snap, dtype=np.float64))))
+                bad = (max(ch, 1.0), f"step {si + 1} ({step}) of the history {hist} modified the caller's density array (largest change {ch:.3e})",
+                       dict(largest_change=ch))
+                break
+        ctx.case(("reuse", hi))
+        if bad is None:
+            out.append(dict(cat="reuse", err=0.0, tol=1.0, key=key, text="", replay={}))
+        else:
+            out.append(dict(cat="reuse", err=bad[0], tol=1e-6 if "modified" in bad[1] else 2 * TOL, key=key, text=bad[1],
+                            replay=dict(history=hist, alpha=alpha, grid="AtomGrid(Becke(1e-5,1.5) o GaussLegendre(50), degrees=[5]), Z=1 at the origin", **bad[2])))
 
 
 def sweep_laplacian(ctx: Ctx, out):
@@ -1529,6 +1669,16 @@ def run(ctx: Ctx):  # noqa: F811
     out = sweep(ctx)
     sweep_laplacian(ctx, out)
     phase("sweep")
+    # large requests and reuse histories: cheap versions always, full versions in thorough or whenever the tie is broken
+    deep = (not ctx.quick) or gen_err is not None or any(o["status"] != "discharged" for o in ctx.obligations.values()) \
+        or any(f.obligation.startswith("corr_") for f in ctx.failures)
+    for part, cat in ((sweep_reuse, "reuse"), (sweep_large_requests, "large")):
+        try:
+            part(ctx, out, deep)
+        except Exception as e:  # noqa: BLE001
+            out.append(dict(cat=cat, err=1e9, tol=1.0, key=f"{part.__name__}:raised:{type(e).__name__}:tier={ctx.tier}:seed={ctx.seed}",
+                            text=f"{part.__name__}: {type(e).__name__}: {e}", replay=dict(exception=repr(e))))
+    phase("large+reuse")
     worst = {}
     for rec in out:
         ctx.cov.setdefault("sweep_max_error_over_tol", {})
@@ -1590,6 +1740,7 @@ def run(ctx: Ctx):  # noqa: F811
     ctx.assumptions += [
         "densities resolved by the grid: exponents 0.3..5, centres on the atoms (quick) or within 0.25 bohr (thorough), atoms of molecular grids well separated",
         "a ValueError('The ode solver didn't converge') is the ODE solver's documented failure mode and counts as 'not resolved' (counted, not a violation)",
+        "a request of zero points is not demanded of solve_poisson_ivp's potential (scipy.integrate OdeSolution raises on an empty array); the other callables return an empty array",
         "the BVP closure returns 0 exactly at an expansion centre (documented: solution assumed zero at the origin); evaluation points avoid the centres",
     ]
     y00 = float(generate_real_spherical_harmonics(0, np.array([0.1]), np.array([0.1]))[0, 0])
@@ -1633,5 +1784,29 @@ def replay(rp: dict) -> int:
         print(f"density = fitted core model of Z={case['atnums']}: solve_poisson_robust(split2={case['split2']})({rp['point']}) = {got}; "
               f"analytic core potential = {exp}; error per unit core charge = {abs(got - exp) / scale:.3e} (allowed 1e-9)")
         return int(not abs(got - exp) / scale <= 1e-9)
+    key = str(rp.get("key", ""))
+    if key.startswith("large_request:") or key.startswith("reuse:"):
+        import random
+
+        class Stub:      # the searches only need a seeded rng and counters
+            seed, tier, quick = 0, "quick", True
+            rng = random.Random(0)
+
+            def case(self, *a, **k):
+                pass
+
+            def count(self, *a, **k):
+                pass
+        recs = []
+        if key.startswith("large_request:"):
+            sweep_large_requests(Stub(), recs, True, alpha=rp["alpha"], only=(rp["function"], int(rp["n"])))
+        else:
+            sweep_reuse(Stub(), recs, True, alpha=rp["alpha"], only=rp["history"])
+        bad = [r for r in recs if not r["err"] <= r["tol"]]
+        for r in bad:
+            print(r["text"])
+        if not bad:
+            print("the recorded request / history now passes")
+        return int(bool(bad))
     print("(no automatic replay for this record; see `text` and `case`)")
     return 0
